@@ -552,7 +552,8 @@ def case_quad(ctx, rng, name, psel, a_obs, b_obs, layout, half_line=False, weigh
             ctx.equal(sorted(got[2]), sorted(direct[2]), mech + ':infodict-differs-from-scipy', what)
             ctx.equal(got[2].get('neval'), direct[2].get('neval'), mech + ':infodict-differs-from-scipy', what)
         exact0 = integral(pv, av, bv, c) if weight is None else ri.weighted_integral(name, pv, av, bv, c, weight, wvar)
-        ctx.close(got[0], exact0, mech + ':value-differs-from-antiderivative', what, rtol=1e-9, scale=abs_integral(f, pv, av, bv, c))
+        vrt, _, eab = quadrature_contract(kw, math.isinf(bv))
+        ctx.close(got[0], exact0, mech + ':value-differs-from-antiderivative', what, rtol=vrt, atol=eab, scale=abs_integral(f, pv, av, bv, c))
         ctx.nontrivial.add(digest('plain', name, pv, av, bv, sorted(kw)))
         return
     ctx.count('integrals_judged')
@@ -580,7 +581,12 @@ def case_quad(ctx, rng, name, psel, a_obs, b_obs, layout, half_line=False, weigh
     iscale = abs_integral(f, pv, av, bv, c)
     gabs = [abs(g_) for g_ in grads]
     t = ctx.trial()
-    ok = compare_obs(t, tidy_cancellations(res, ref, snaps, gabs, 1e-8), ref, mech, scale=scale, rtol=1e-8, vtol=1e-9, what=what, value_scale=iscale)
+    vrt, grt, eab = quadrature_contract(kw, math.isinf(bv))
+    if eab:
+        # absolute part of the requested accuracy: on the value and on every derivative integral
+        iscale = iscale + eab / vrt
+        scale = scale + eab * dense.delta_scale(snaps, [1.0] * len(snaps)) / grt
+    ok = compare_obs(t, tidy_cancellations(res, ref, snaps, gabs, grt), ref, mech, scale=scale, rtol=grt, vtol=vrt, what=what, value_scale=iscale)
     named = False
     if not ok:
         hyp = {}
@@ -670,6 +676,19 @@ def case_function_history(ctx, rng, what, name):
         SHARED.clear()
 
 
+def quadrature_contract(kw, infinite):
+    """(rtol_value, rtol_gradient, epsabs) that the numerical quadrature can be held to.
+    Finite ranges of the analytic integrands used here: the 21-point Gauss-Kronrod rule converges to rounding, 1e-9 / 1e-8 of
+    int|f| are kept.  Infinite ranges (QAGI): the routine is only accurate to what the options request, max(epsabs, epsrel |I|)
+    (default 1.49e-8 each), and its own error estimate is not a bound (observed: reported 1.2e-12, actual 2.4e-9 = 2.2e-8 |I| for
+    p0 exp(-p1 x) on [a, inf)); the tolerance is 10 x the requested accuracy."""
+    if not infinite:
+        return 1e-9, 1e-8, 0.0
+    eabs = float(kw.get('epsabs', 1.49e-8))
+    erel = float(kw.get('epsrel', 1.49e-8))
+    return max(1e-9, 10 * erel), max(1e-8, 10 * erel), 10 * eabs
+
+
 def abs_integral(f, p, a, b, c):
     """int |f| (crude, 64 points) as the scale for the comparison of values."""
     lo, hi = (a, b) if a <= b else (b, a)
@@ -707,12 +726,38 @@ def diagnose_quad(ctx, res, ins, grads, val, npobs, a_obs, b_obs, mech, what, ex
     return False
 
 
+def instrument(ctx):
+    """count how often every judgement (mechanism) is evaluated: counters 'judged:<mechanism>' in the evidence; trial contexts
+    are instrumented as well (their counters arrive when the trial is absorbed)."""
+    if getattr(ctx, '_vmon_instrumented', False):
+        return ctx
+    ctx._vmon_instrumented = True
+    close, equal, require, trial = ctx.close, ctx.equal, ctx.require, ctx.trial
+
+    def c_close(got, exp, mechanism, *a, **k):
+        ctx.count('judged:' + mechanism)
+        return close(got, exp, mechanism, *a, **k)
+
+    def c_equal(got, exp, mechanism, *a, **k):
+        ctx.count('judged:' + mechanism)
+        return equal(got, exp, mechanism, *a, **k)
+
+    def c_require(cond, mechanism, *a, **k):
+        ctx.count('judged:' + mechanism)
+        return require(cond, mechanism, *a, **k)
+
+    def c_trial():
+        return instrument(trial())
+    ctx.close, ctx.equal, ctx.require, ctx.trial = c_close, c_equal, c_require, c_trial
+    return ctx
+
+
 # ------------------------------------------------------------------------------------------
 def setup(ctx):
     global PE, CTX
     import pyerrors as pe
     PE = pe
-    CTX = ctx
+    CTX = instrument(ctx)
     ri.self_check()
     taps.tap_function(pe.roots, 'find_root', CountMonitor())
     taps.tap_function(pe.integrate, 'quad', CountMonitor())
